@@ -116,6 +116,10 @@ static int binary_search(void** haystack, ssize_t haystack_size, void* needle) {
 
 void hazard_pointer_scan(hazard_pointer_thread_record_t* hptr) {
   assert(hptr);
+  // the stores which unlinked the retired nodes must be visible before the
+  // other threads' hazard pointers are read (a reader validates against the
+  // link): this needs a store->load fence, like hazard_pointer_using() has
+  store_load_barrier();
   // head always has a correct retired_threshold; that is, retired_threshold = 2
   // * N * K
   hazard_pointer_thread_record_t* const head = *hptr->head;
